@@ -3,7 +3,7 @@
     update, and under two different iteration orders (as listed, and reversed, both loops
     independently) for the map-consuming functions — and compares. *)
 From Coq Require Import List ZArith Bool String.
-From Paloma Require Import Base.Corr Base.Dec Evm.Assign Sys.Ambient Sys.NodeLocal.
+From Paloma Require Import Base.Corr Base.Dec Evm.Assign Cons.Quorum Sys.Ambient Sys.NodeLocal.
 Import ListNotations.
 Open Scope Z_scope.
 
@@ -17,6 +17,9 @@ Inductive case :=
 | CAnyMissing (keys present : list Z) (got : bool)
 | CSortedMissing (keys present : list Z) (got : list Z)
 | CJailMissing (vals : list (Z * Z * bool)) (rounds : list (list Z)) (got : list Z)
+| CEvidence (powers : list (Z * Z)) (subs : list (Z * Z * Z)) (got : Z * Z * Z)
+    (* submissions (validator, proof kind, variant) stored with the real AddEvidence in that order, tallied by the real
+       VerifyEvidence; got = (1, kind, variant) of the winner, or (0, 0, 0) when the tally returns an error *)
 | CVestEnd (t months start stop : Z).
     (* MsgRegisterLightNodeClient at block time t (UTC seconds) consuming a licence with [months] vesting months:
        StartTime / EndTime of the continuous vesting account found in the auth store afterwards *)
@@ -61,6 +64,14 @@ Definition check (c : case) : bool :=
       list_eqb Z.eqb (sorted_missing_amb (amb_env false true) keys present) got
   | CJailMissing vals rounds got =>
       list_eqb Z.eqb (jailed_ids (jail_rounds vals rounds)) got
+  | CEvidence powers subs got =>
+      let sn := {| sn_vals := powers; sn_total := Base.Num.zsum (map snd powers) |} in
+      let evs := fold_left add_evidence
+                   (map (fun s => let '(v, k, d) := s in {| ev_val := v; ev_tag := k; ev_data := d; ev_bad := false |}) subs) [] in
+      let code (o : outcome) := match o with Winner e => (1, ev_tag e, ev_data e) | _ => (0, 0, 0) end in
+      let same (x y : Z * Z * Z) := let '(a, b, c) := x in let '(a', b', c') := y in (a =? a') && (b =? b') && (c =? c') in
+      same (code (verify_evidence Z.eqb (fun t d => t * 1000 + d) (ord_groups (amb_env false false)) sn evs)) got &&
+      same (code (verify_evidence Z.eqb (fun t d => t * 1000 + d) (ord_groups (amb_env false true)) sn evs)) got
   | CVestEnd t months start stop =>
       match snd (step_amb (amb_env false false) {| st_cache := cache0; st_kv := [] |} (TxVest t months)),
             snd (step_amb (amb_env true true) {| st_cache := cache0; st_kv := [] |} (TxVest t months)) with
